@@ -58,7 +58,7 @@ func payerOf(tx *transaction.Transaction) string {
 
 func prio(tx *transaction.Transaction) [3]int64 {
 	hp := int64(0)
-	if tx.HasAttribute(transaction.HighPriority) {
+	if hasAttr(tx, transaction.HighPriority) {
 		hp = 1
 	}
 	return [3]int64{hp, tx.FeePerByte(), tx.NetworkFee}
@@ -73,25 +73,39 @@ func less(a, b [3]int64) bool {
 	return false
 }
 
-func oracleID(tx *transaction.Transaction) (uint64, bool) {
-	a := tx.GetAttributes(transaction.OracleResponseT)
-	if len(a) == 0 {
-		return 0, false
+// The monitor reads the attribute list itself (not through the transaction's
+// own lookup helpers, which the pool uses too).
+func hasAttr(tx *transaction.Transaction, t transaction.AttrType) bool {
+	for i := range tx.Attributes {
+		if tx.Attributes[i].Type == t {
+			return true
+		}
 	}
-	return a[0].Value.(*transaction.OracleResponse).ID, true
+	return false
+}
+
+func oracleID(tx *transaction.Transaction) (uint64, bool) {
+	for i := range tx.Attributes {
+		if tx.Attributes[i].Type == transaction.OracleResponseT {
+			return tx.Attributes[i].Value.(*transaction.OracleResponse).ID, true
+		}
+	}
+	return 0, false
 }
 
 func conflictsOf(tx *transaction.Transaction) []util.Uint256 {
 	var r []util.Uint256
-	for _, a := range tx.GetAttributes(transaction.ConflictsT) {
-		r = append(r, a.Value.(*transaction.Conflicts).Hash)
+	for i := range tx.Attributes {
+		if tx.Attributes[i].Type == transaction.ConflictsT {
+			r = append(r, tx.Attributes[i].Value.(*transaction.Conflicts).Hash)
+		}
 	}
 	return r
 }
 
 func short(tx *transaction.Transaction) string {
 	s := fmt.Sprintf("%s{payer=%s sys=%d net=%d size=%d", tx.Hash().StringLE()[:6], payerOf(tx)[:6], tx.SystemFee, tx.NetworkFee, tx.Size())
-	if tx.HasAttribute(transaction.HighPriority) {
+	if hasAttr(tx, transaction.HighPriority) {
 		s += " high"
 	}
 	if id, ok := oracleID(tx); ok {
@@ -153,6 +167,8 @@ func (s *seqState) mk() *transaction.Transaction {
 			nc = 1
 		case 2:
 			nc = 2
+		case 3:
+			nc = 2 + r.Intn(2)
 		}
 	}
 	seen := map[util.Uint256]bool{}
@@ -169,6 +185,26 @@ func (s *seqState) mk() *transaction.Transaction {
 	}
 	if r.Intn(8) == 0 {
 		tx.Attributes = append(tx.Attributes, transaction.Attribute{Type: transaction.HighPriority})
+	}
+	if r.Intn(10) == 0 {
+		tx.Attributes = append(tx.Attributes, transaction.Attribute{Type: transaction.NotValidBeforeT, Value: &transaction.NotValidBefore{Height: uint32(r.Intn(3))}})
+	}
+	// nothing orders the attributes of a transaction: attributes of one type
+	// need not be adjacent
+	if len(tx.Attributes) > 1 && r.Intn(2) == 0 {
+		r.Shuffle(len(tx.Attributes), func(i, j int) { tx.Attributes[i], tx.Attributes[j] = tx.Attributes[j], tx.Attributes[i] })
+	}
+	if nc >= 2 && len(tx.Attributes) >= 2 && tx.Attributes[0].Type == transaction.ConflictsT && tx.Attributes[1].Type == transaction.ConflictsT && r.Intn(2) == 0 {
+		// Conflicts attributes separated by an attribute of another type
+		sep := transaction.Attribute{Type: transaction.NotValidBeforeT, Value: &transaction.NotValidBefore{Height: 1}}
+		for _, a := range tx.Attributes {
+			if a.Type == transaction.NotValidBeforeT {
+				sep = transaction.Attribute{}
+			}
+		}
+		if sep.Value != nil {
+			tx.Attributes = append(tx.Attributes[:1], append([]transaction.Attribute{sep}, tx.Attributes[1:]...)...)
+		}
 	}
 	return tx
 }
